@@ -17,3 +17,12 @@ claim('C17', 'other',
       'modules, so a wrong code is also caught end to end by the property that decodes it.',
       'trusts the glibc and LLVM 14 headers as registries and tools/mkregistry.py (C constant-expression evaluation); names on which '
       'the two sources disagree (5) are excluded', 'DESIGN.md 5/C17')
+claim('C01', 'model_checking',
+      'TLA+ abstract ELF writer + declarative reader view (spec/ElfImage.tla over Elf.tla, RegistryData.tla) model-checked by TLC; '
+      'every finished image is emitted as bytes and replayed into ELFFile, all header/section/segment observables compared',
+      'TLC enumerates the writer (class x byte order x machines x section/segment kinds x table placement and entry-size options x '
+      'one image per registry code of every enumerated field x numeric boundary values x extended numbering) and checks on the '
+      'specification that chunks never overlap, that the gABI reader procedure recovers counts and name-table index through the '
+      'escapes, that tables tile and names resolve. Each emitted image is a conformance case for the real ELFFile.',
+      'trusts TLC, the sparse writer (10 lines), the transcription of the gABI layouts in Elf.tla, and the vendored registry; names the '
+      'registry does not define are not asserted; special section types get minimal valid content', 'DESIGN.md 5/C01')
